@@ -67,6 +67,7 @@ Record comp := { c_val : value; c_added : tick; c_changed : tick }.
 Record entity := {
   en_mark : option tick;              (* SyncMark, with its added tick *)
   en_sync : option uuid;              (* SyncEntity { uuid } *)
+  en_sync_added : tick;               (* tick at which SyncEntity was inserted (meaningful when en_sync is Some) *)
   en_comps : gmap tyid comp;
   en_excl : list tyid;                (* SyncExclude<T> markers *)
   en_parent : option (ent * tick);    (* Parent, with its changed tick *)
@@ -74,7 +75,7 @@ Record entity := {
 }.
 
 Definition new_entity : entity :=
-  {| en_mark := None; en_sync := None; en_comps := ∅; en_excl := []; en_parent := None; en_children := [] |}.
+  {| en_mark := None; en_sync := None; en_sync_added := 0; en_comps := ∅; en_excl := []; en_parent := None; en_children := [] |}.
 
 Inductive sysid :=
 | SFixVisibility | SFixGlobalTransform | SFixCubemapFrusta | SFixCubemapVisible | SFixSpotFrustum
@@ -120,7 +121,7 @@ Inductive cmd :=
 | CRelay (from : peer) (m : msg)
 | CSendInitialSync (to : peer)
 | CRequestInitialSync
-| CFixInsert (e : ent) (reinsert : option (tyid * value)) (companions : list tyid)
+| CFixInsert (e : ent) (companions : list tyid)
 | CStartServer                                    (* PromoteToHost closure: insert server transport, flag := true *)
 | CStartClientTo (h : peer) (set_flag : bool)     (* NewHost: insert a client transport towards h *)
 | CRemoveClientTransport
@@ -140,12 +141,12 @@ Definition is_nil {A} (l : list A) : bool := match l with [] => true | _ => fals
 Definition is_some {A} (o : option A) : bool := match o with Some _ => true | None => false end.
 
 (* where execution panicked (the census of partial operations of the code) *)
+(* Remaining partial operations. The sites repaired by fix: commits (bin_to_reflect unwrap,
+   world.entity / entity_mut on a dead entity, Commands insert on a despawned entity) no longer
+   exist in the code and are no longer outcomes of the model. *)
 Inductive panic_site :=
-| PBinToReflectUnregistered       (* binreflect.rs: bin_to_reflect(...).unwrap(): type path unknown to the registry *)
-| PWorldEntityDead                (* lib_priv.rs: world.entity(e_id) on a despawned entity *)
-| PEntityMutDead                  (* client/receiver.rs: world.entity_mut(c_e_id) / entity_mut(c_p_id); server: entity_mut(p_id) *)
-| PInsertDead                     (* Commands::entity(e).insert(..) applied after e was despawned (B0003) *)
-| PSetParentSelf
-| PSkinPosesMissing.              (* to_skinned_mapper: assets.get(handle).unwrap() *)
+| PEntityMutDead                  (* application operation: add_child on a dead parent *)
+| PInsertDead                     (* application system: Commands::entity(e).insert(..) after e was despawned (B0003) *)
+| PSetParentSelf.                 (* add_child(parent = child): "Cannot add entity as a child of itself" *)
 
 Inductive asset_event := AEAdded | AEModified.
